@@ -14,10 +14,19 @@ one() {
   wt=/tmp/wt_audit_$id
   git -C /repo worktree add -q --detach $wt HEAD || { echo "$id $prop worktree-failed"; return; }
   if git -C $wt apply /verif/seeded/$id/patch.diff 2>/dev/null; then
-    VERIF_WORKDIR=/verif/.work/audit/w_$id VERIF_EVIDENCE_DIR=/verif/.work/audit/e_$id IOOS_QC_TREE=$wt \
-      ./vcheck $prop --tier quick > /verif/.work/audit/audit_$id.log 2>&1
-    rc=$?
-    echo "$id $prop rc=$rc violations=$(grep -c '^VIOLATION' /verif/.work/audit/audit_$id.log)"
+    target=$(python3 -c "import json;print(json.load(open('/verif/seeded/$id/meta.json')).get('target_check',''))")
+    if [ "$target" = "extra" ]; then
+      # outside the statement of its property: the growth checks are what reports it
+      VERIF_WORKDIR=/verif/.work/audit/w_$id VERIF_EVIDENCE_DIR=/verif/.work/audit/e_$id IOOS_QC_TREE=$wt \
+        ./vcheck extra > /verif/.work/audit/audit_$id.log 2>&1
+      rc=$?
+      echo "$id extra($prop) rc=$rc violations=$(grep -c '^EXTRA-REJECT' /verif/.work/audit/audit_$id.log)"
+    else
+      VERIF_WORKDIR=/verif/.work/audit/w_$id VERIF_EVIDENCE_DIR=/verif/.work/audit/e_$id IOOS_QC_TREE=$wt \
+        ./vcheck $prop --tier quick > /verif/.work/audit/audit_$id.log 2>&1
+      rc=$?
+      echo "$id $prop rc=$rc violations=$(grep -c '^VIOLATION' /verif/.work/audit/audit_$id.log)"
+    fi
   else
     echo "$id $prop patch-does-not-apply"
   fi
